@@ -33,6 +33,8 @@ def build_conn(cd):
             c.key_update(d, request=bool(i % 2))
         if cd.get("reneg_at") == i and cd["ver"] != R.TLS13:
             c.renegotiate()
+        if cd.get("hreq_at") == i and cd["ver"] != R.TLS13:
+            c.hello_request()
         if i in alerts:                     # e.g. a half-close: close_notify of one side while the other still sends
             c.alert(alerts[i][0], alerts[i][1], 0)
         c.app(a[0], a[1], pad13=a[2] if len(a) > 2 else None)
@@ -135,6 +137,21 @@ def _build_tls_capture(sc):
                     i += 1
             i += 1
         cap.pkts, cap.meta = pk, me
+    if sc.get("pause"):
+        # a long silence in mid-connection (an idle keep-alive connection, a suspended laptop, a clock step forward): every packet from index k on
+        # is captured `seconds` later
+        k, seconds = sc["pause"]
+        k = max(1, min(len(cap.pkts) - 1, k))
+        cap.pkts = [(ts + (seconds * 10 ** 6 if i >= k else 0), fr) for i, (ts, fr) in enumerate(cap.pkts)]
+    if sc.get("fin_data"):
+        # the application closes right after its last write: the last data segment of each direction carries FIN|PSH|ACK
+        from wire.l2l4 import set_tcp_flags, FIN, PSH, ACK
+        last = {}
+        for i, m in enumerate(cap.meta):
+            if m is not None and not m.dup:
+                last[(m.conn, m.d)] = i
+        for i in last.values():
+            cap.pkts[i] = (cap.pkts[i][0], set_tcp_flags(cap.pkts[i][1], FIN | PSH | ACK))
     if sc.get("tsjitter"):
         # capture files need not be chronological (merged interfaces, clock steps): file order is what counts.
         # every packet gets a distinct time, locally out of order with respect to its neighbours
@@ -231,6 +248,6 @@ def run_tls(sc, trace=False):
         pkts = [((ts * 1000 + (i * 377) % 1000, 10 ** 9), fr) for i, (ts, fr) in enumerate(cap.pkts)]
     data = pcapng_bytes(pkts, le=ct.get("le", True), tsresol=ct.get("tsresol"), tsoffset=ct.get("tsoffset"),
                         second_if=tuple(ct["second_if"]) if ct.get("second_if") else None)
-    res = runner.run_inproc(data, "\n".join(keylog) + "\n", opts=opts, trace=trace)
+    res = runner.run_inproc(data, "\n".join(keylog) + "\n", opts=opts, trace=trace, stale_out=sc.get("stale_out"))
     obs, o = observe_tls(res, conns, flows, opts)
     return cap, conns, flows, res, obs, o
